@@ -27,7 +27,8 @@ STATE_CHUNK = 40            # FsckN lines with a state per TLC process
 
 QUICK_N = int(os.environ.get("C02_QUICK_N", "270"))
 QUICK_PAIRS = int(os.environ.get("C02_QUICK_PAIRS", "24"))
-# thorough: every bindable single with the checksum recomputed, every pair, and one stale-checksum recipe in STALE_EVERY
+# thorough: every bindable element of the universe is run (singles with recomputed and with stale checksum, pairs, triples);
+# the state of FLAGGED stale-checksum singles is projected (evidence only) inside a 1-in-STALE_EVERY subsample
 STALE_EVERY = 6
 # thorough: recipes that e2fsck flags hold trivially; their state is projected (for the evidence: how many of the
 # inconsistent states e2fsck flags, reader/e2fsck agreement) for one in FLAGGED_EVERY
@@ -293,14 +294,21 @@ def select(tier, U, profiles, pool, rng, quick_n=None, quick_pairs=None, all_sta
         for p, k in pick:
             cases.append((p, (singles + prs)[k], True))
     else:
-        n = 0
+        # the WHOLE universe (closed-universe rule of DESIGN.md section 1: whatever the quick tier can select for any seed
+        # has been run here).  Every element gets its e2fsck run, and its state is projected whenever e2fsck exits 0 (the
+        # only case in which the property says anything).  Projecting the state of a FLAGGED image serves the evidence only
+        # (reader / e2fsck agreement): one in FLAGGED_EVERY, and among the stale-checksum singles (which e2fsck flags almost
+        # always, by the checksum alone) only inside a 1-in-STALE_EVERY subsample.
+        n = m = 0
         for p in profiles:
             for k in sorted(bindmap[p]):
                 r = (singles + prs)[k]
+                sample = True
                 if k < ns and r[0]["csum"] == "stale" and not all_stale:
                     n += 1
-                    if n % STALE_EVERY: continue
-                cases.append((p, r, (len(cases) % FLAGGED_EVERY) == 0))
+                    sample = (n % STALE_EVERY) == 0
+                if sample: m += 1
+                cases.append((p, r, sample and (m % FLAGGED_EVERY) == 1))
     return cases, stats
 
 
@@ -448,7 +456,8 @@ def run(tier):
             "base images enter the universe only if e2fsck -fn AND Consistent accept them",
             "states the reader cannot produce or whose certificates CertOK rejects are 'unknown' and not counted (%d this run)" % st["unknown"],
             "global superblock free counts and the other PR_NO_OK tolerances of DESIGN.md section 5 C02 are not part of Consistent",
-            "thorough: stale-checksum recipes sampled 1 in %d, states of flagged images projected 1 in %d (flagged images satisfy the property trivially)" % (STALE_EVERY, FLAGGED_EVERY),
+            "thorough runs every bindable universe element; the state of an image is projected whenever e2fsck -fn exits 0; states of FLAGGED images (the property holds "
+            "trivially) are projected for the evidence only: 1 in %d, stale-checksum singles 1 in %d of those" % (FLAGGED_EVERY, STALE_EVERY),
         ]
         return vd.finish()
     finally:
